@@ -59,6 +59,24 @@ let log_str (l : entry list) : string =
 
 let rz = ref N0
 
+(* CCtx_params tokens at a.(i)..a.(i+18): lvl cp(7) row ldm(5) mbs ext inb outb nbw *)
+let pp_at (a : string array) (i : int) : cctxparams =
+  { p_level = z_of_hex a.(i); p_cp = cp_of a (i+1); p_row = ps_of a.(i+8); p_ldm = ldm_of a (i+9);
+    p_maxBlockSize = n_of_hex a.(i+14); p_extSeq = b_of a.(i+15); p_inBuffered = b_of a.(i+16);
+    p_outBuffered = b_of a.(i+17); p_srcSizeHint = N0; p_nbWorkers = n_of_hex a.(i+18) }
+
+(* history operation token: L:<lvl>:<srcLen> | 2:<srcLen> | S:<srcLen>, optional *<reps> *)
+let hops_of_token (t : string) : hop list =
+  let t, reps = match String.index_opt t '*' with
+    | Some k -> String.sub t 0 k, int_of_string ("0x" ^ String.sub t (k+1) (String.length t - k - 1))
+    | None -> t, 1 in
+  let h = match String.split_on_char ':' t with
+    | ["L"; l; s] -> HopSimple (z_of_hex l, n_of_hex s)
+    | ["2"; s] -> HopCompress2 (n_of_hex s)
+    | ["S"; _] -> HopStream
+    | _ -> failwith ("bad history token " ^ t) in
+  List.init reps (fun _ -> h)
+
 let handle (a : string array) : string =
   match a.(0) with
   | "RZ" -> rz := n_of_hex a.(1); "ok"
@@ -98,6 +116,28 @@ let handle (a : string array) : string =
       (match initStaticCDict !rz (n_of_hex a.(1)) (n_of_hex a.(2)) (cp_of a 3) (n_of_hex a.(10)) (b_of a.(11)) with
        | InitNull -> "NULL"
        | InitOk (w, l) -> "OK used=" ^ hex_of_n (cwksp_used w) ^ " log=" ^ log_str l)
+  | "NEED" ->
+      (* NEED kind lvl srcLen : neededSpace of the first reset of ZSTD_compressCCtx (L) / ZSTD_compress2 (2) /
+         buffered ZSTD_compressStream2 (S) at a level, source size as known to the reset *)
+      let l = z_of_hex a.(2) and s = n_of_hex a.(3) in
+      hex_of_n (match a.(1) with "L" -> need_simple !rz l s | "2" -> need_compress2 !rz l s | _ -> need_stream !rz l s)
+  | "HIST" ->
+      (* HIST start size pp(19 tokens) op op ... *)
+      let start = n_of_hex a.(1) and size = n_of_hex a.(2) in
+      let p = pp_at a 3 in
+      let hops = List.concat (List.map hops_of_token (Array.to_list (Array.sub a 22 (Array.length a - 22)))) in
+      (match static_history_hops !rz start size p hops with
+       | None -> "NULL"
+       | Some ((_, outs), cxf) ->
+         let tok = function
+           | ResetDone (w, _) -> "K/" ^ hex_of_n (cwksp_used w)
+           | ResetMemError -> "M"
+           | ResetResize _ -> "R" in
+         let lastlog = match List.rev outs with ResetDone (_, l) :: _ -> log_str l | _ -> "" in
+         let w = cxf.cx_ws in
+         "OK ops=" ^ String.concat " " (List.map tok outs) ^
+         " end=" ^ hex_of_n (N.sub w.objectEnd start) ^ ":" ^ hex_of_n (N.sub w.tableEnd start) ^ ":" ^ hex_of_n (N.sub w.allocStart start) ^
+         " dur=" ^ hex_of_n cxf.cx_dur ^ " failed=" ^ bstr w.allocFailed ^ " log=" ^ lastlog)
   | "EDSTREAM" -> hex_of_n (estimateDStreamSize (n_of_hex a.(1)))
   | "EDDICT" -> hex_of_n (estimateDDictSize (n_of_hex a.(1)) (b_of a.(2)))
   | "DBUF" -> hex_of_n (decodingBufferSize_internal (n_of_hex a.(1)) (n_of_hex a.(2)) (n_of_hex a.(3)))
